@@ -1036,19 +1036,12 @@ class C14(CheckBase):
                 # no two threads were ever reloading the instance at the
                 # same time: whatever went wrong is not that finding
                 return sig
-            # ... and the finding is about a compilation of the older
-            # content that *finishes after* one of the newest content has
-            # begun.  If the newest content was never compiled at all (a
-            # reload that was skipped), it is something else.
-            newest = FILES_V3.get(reload["target"])
-            older = FILES_V2.get(reload["target"])
-            c3 = [c for c in _CK["cooks"] if c[0] == newest and c[3]]
-            co = [c for c in _CK["cooks"] if c[0] == older and c[3]]
-            if not any(o[2] > n_[1] for o in co for n_ in c3) and \
-                    not intr_fired:
-                # (with an interrupt in the run the compilation of the
-                # newest content may be the one that was cut short)
-                return sig
+            # (A narrower rule was tried - file it only when a compilation
+            # of the older content ended after one of the newest began -
+            # and withdrawn: on the unchanged tree the late `_cooked = True`
+            # of the older compilation can also land between another
+            # thread's invalidation and its check, and then the newest
+            # content is never compiled at all; soak, VERIF_SEED=607.)
             if got == v2 and got != v3:
                 return "stale-version-after-replace-during-use"
             if got[0] == "ok" and got != v3 and \
